@@ -114,7 +114,7 @@ def at_scale_case(ctx, g, rng):
 
 
 def run_case(ctx, g, rng):
-    if g % 60 == 60 - 1:
+    if g % 61 == 61 - 1:
         return at_scale_case(ctx, g, rng)
     api, S, pd = ctx.api, probe.S, ctx.pd
     d = rng.choice([":", ":", ":", "/", "_"])
